@@ -372,8 +372,8 @@ theorem compactRows_spec {t : Table} (inv : TCq t []) (hcomp : AllComplete t) {o
 /-- `compact()` of a complete table without pending coincidences: a table with an empty
     union-find whose rows are the classes, numbered by a bijection that sends the class of
     row 0 to 0, and whose entries are the images of the entries of the canonical rows -/
-theorem compact_spec {t t' : Table} (inv : TCq t []) (hcomp : AllComplete t) (h : t.compact = .ok t') :
-    ∃ (o2n : Array (Option Nat)) (m : Nat), Numbering t o2n m (fun x => x < t.len) ∧
+theorem compact_spec' {t t' : Table} (inv : TCq t []) (hcomp : AllComplete t) (h : t.compact = .ok t') :
+    ∃ (o2n : Array (Option Nat)) (m : Nat), t.oldToNew = .ok o2n ∧ Numbering t o2n m (fun x => x < t.len) ∧
       o2n[t.canon 0]? = some (some 0) ∧ t'.nrGens = t.nrGens ∧ t'.part = Part.new ∧
       (∀ (x : Nat) (row : Array Int), t'.rows[x]? = some row → row.size = t'.nrGens * 2 + 1) ∧
       t'.len = m ∧
@@ -388,7 +388,7 @@ theorem compact_spec {t t' : Table} (inv : TCq t []) (hcomp : AllComplete t) (h 
     have ci := compactRows_spec inv hcomp num (List.range t.len) _ t' _
       (fun k hk => List.mem_range.mp hk) (cinv_new t o2n m) h
     have hm1 : 1 ≤ m := by have := (num.sound _ _ h0).2; omega
-    refine ⟨o2n, m, num, h0, ci.nr, ci.part, ci.width, ?_, ?_⟩
+    refine ⟨o2n, m, rfl, num, h0, ci.nr, ci.part, ci.width, ?_, ?_⟩
     · have hub := ci.lenub
       have hlb := ci.lenpos
       by_cases hn : t.allGens = []
@@ -424,5 +424,17 @@ theorem compact_spec {t t' : Table} (inv : TCq t []) (hcomp : AllComplete t) (h 
       exact ci.wr k g c j jc hg (Or.inr ⟨List.mem_range.mpr hkl, hk, hg⟩) hget hj hjc
   | err => simp [ho] at h
   | panic => simp [ho] at h
+
+
+theorem compact_spec {t t' : Table} (inv : TCq t []) (hcomp : AllComplete t) (h : t.compact = .ok t') :
+    ∃ (o2n : Array (Option Nat)) (m : Nat), Numbering t o2n m (fun x => x < t.len) ∧
+      o2n[t.canon 0]? = some (some 0) ∧ t'.nrGens = t.nrGens ∧ t'.part = Part.new ∧
+      (∀ (x : Nat) (row : Array Int), t'.rows[x]? = some row → row.size = t'.nrGens * 2 + 1) ∧
+      t'.len = m ∧
+      ∀ (k : Nat) (g : Int) (c j jc : Nat), g ∈ t.allGens → t.canon k = k → k < t.len →
+        t.get k g = .ok (some c) → o2n[k]? = some (some j) → o2n[c]? = some (some jc) →
+        t'.get j g = .ok (some jc) := by
+  obtain ⟨o2n, m, _, rest⟩ := compact_spec' inv hcomp h
+  exact ⟨o2n, m, rest⟩
 
 end DSymVerif.CosetInvP
